@@ -56,7 +56,7 @@ func runOne(id int, seed int64, nops int, base string, pool *storeh.Pool, replay
 		op := g.Next(malformedHist && r.Intn(3) == 0)
 		ok := e.Exec(&op)
 		h.Ops = append(h.Ops, op)
-		code := map[string]string{"bwrite": "B", "fwrite": "F", "brollback": "R", "frollback": "r", "reopen": "O"}[op.Kind]
+		code := map[string]string{"bwrite": "B", "fwrite": "F", "brollback": "R", "frollback": "r", "reopen": "O", "legacy": "L"}[op.Kind]
 		if code == "" {
 			code = "q"
 		}
@@ -159,6 +159,9 @@ func main() {
 			}
 			var items []string
 			for j := range hs[i].Ops {
+				if hs[i].Ops[j].Panic != "" {
+					break
+				}
 				items = append(items, c.Pair(storeh.OpTerm(&hs[i].Ops[j]), hs[i].Ops[j].Obs))
 			}
 			sb.WriteString(c.Pair(c.Z(int64(hs[i].ID)), c.List(items)))
@@ -171,7 +174,11 @@ func main() {
 		p := filepath.Join(a.Out, fmt.Sprintf("hist-%d.json", hs[i].ID))
 		c.WriteJSON(p, hs[i])
 		rep.Cases[fmt.Sprint(hs[i].ID)] = p
-		for _, op := range hs[i].Ops {
+		for j, op := range hs[i].Ops {
+			if op.Panic != "" {
+				rep.ImplFailures = append(rep.ImplFailures, c.ImplFailure{Case: fmt.Sprint(hs[i].ID), Step: j,
+					What: op.Kind + " panicked (neither success nor a reported failure): " + op.Panic, Tag: "panic"})
+			}
 			k := op.Kind
 			if op.Fault != "" {
 				k += "+" + op.Fault
